@@ -53,7 +53,8 @@ func (d *detSet) ruleMapRanges(R string, only func(f *ssa.Function) bool) int {
 			for _, part := range strings.Split(m.why, "; ") {
 				if i := strings.Index(part, "calls "); i >= 0 && strings.HasSuffix(part, " keyed by the iteration variable") {
 					callee := strings.TrimSuffix(part[i+6:], " keyed by the iteration variable")
-					if !keyedSinks[callee] {
+					// maps.Copy(dst, src) performs dst[k] = v for every entry of src: keyed and idempotent in any order
+					if !keyedSinks[callee] && !d.keyedOnlyFn(c.fnQuietByName(callee), keyedSinks, 0) && !strings.HasPrefix(callee, "maps.Copy[") && !strings.HasPrefix(callee, "maps.Clone[") && !strings.HasPrefix(callee, "slices.Clone[") {
 						badCallee = callee
 					}
 				}
@@ -481,6 +482,11 @@ func (c *ctx) ruleBlockCacheComplete(R string) {
 				return n > 0
 			}
 			if full(val, 0) {
+				ok = true
+			}
+			// the same through a shared loader whose `transactions` flag is its own parameter: the provenance path renders the
+			// call in this caller's context
+			if strings.HasPrefix(how, "$0.getBlock(") && strings.HasSuffix(how, ",true)#0") {
 				ok = true
 			}
 			r.Check(ok, R+"/blockCache.Add/"+fnName(enclosing(f)), c.p.Pos(in.Pos()), "caches a complete block result ("+how+")",
